@@ -52,7 +52,7 @@ h2b_quick = [tree_inst("hhh", refuse=1, maxmode=1, levels=[0, 255, 0], wit=["CAR
              tree_inst("hhhhh", refuse=4, maxval=2, levels=[0, 0, 0, 0, 0], wit=["LIMIT"], label="l_00000r_max2"),
              tree_inst("hmhh", refuse=2, maxval=3, levels=[0, 0, 7, 0], wit=["LIMIT"], label="l_hm_7r_h_max3")]
 h2b_thorough = h2b_quick + [tree_inst("hhhhhhhh", refuse=7, maxmode=1, levels=[253, 0, 0, 0, 0, 0, 0, 0], close_overflow=True, wit=["CARRY"], label="l_253_0x6_0r_carry2"),
-                            tree_inst("hhhhhh", refuse=3, maxmode=1, levels=[3, 2, 255, 255, 1, 0], close_overflow=False, wit=["CARRY"], label="l_3_2_255_255r_1_0")]
+                            tree_inst("hhhh", refuse=3, maxmode=1, levels=[3, 2, 254, 255], close_overflow=False, wit=["CARRY"], label="l_3_2_254_255r_root255")]
 common = {"src": "h1_tree.c", "env": ENV, "tus": TUS, "unwind": 6,
           "unwindset": ["KSI_TreeBuilder_close.0:257", "calculateHighestLevel.0:257", "insertNode:6", "getHashChainLinks:6", "KSI_TreeNode_free:6"],
           "cbmc_flags": FS, "restrict_fp": RESTRICT, "max_replays": 2, "object_bits": 12, "mem_gb": 8, "timeout": 600, "solver": "kissat",
@@ -74,16 +74,15 @@ h3_quick = [bs_inst("leaves_n1_M_mask", MODE=1, NLEAVES=1, MDS="{1,0,0,0,0,0,0,0
 h3_thorough = h3_quick + [bs_inst("leaves_n2_MM_mask", MODE=1, NLEAVES=2, MDS="{1,1,0,0,0,0,0,0}", MASK=1), bs_inst("reset_n1", MODE=2, NLEAVES=1, MASK=1),
                           bs_inst("leaves_n3_MhM_mask", MODE=1, NLEAVES=3, MDS="{1,0,1,0,0,0,0,0}", MASK=1),
                           bs_inst("leaves_n1_h_mask", MODE=1, NLEAVES=1, MDS="{0,0,0,0,0,0,0,0}", MASK=1),
-                          bs_inst("leaves_n4_MMMM_mask", MODE=1, NLEAVES=4, MDS="{1,1,1,1,0,0,0,0}", MASK=1),
                           bs_inst("reset_n2_closed", MODE=2, NLEAVES=2, MASK=1, CLOSE_BEFORE_RESET=1),
                           bs_inst("reset_n1_nomask", MODE=2, NLEAVES=1, MASK=0)]
-B_H3 = ("block signer with SHA2-256: 2 leaves (thorough 1..4) with / without per-leaf metadata (4-byte payload) and with / without blinding masks (8-byte initial value); all digests, payloads, "
+B_H3 = ("block signer with SHA2-256: 1-2 leaves (thorough up to 3) with / without per-leaf metadata (4-byte payload) and with / without blinding masks (8-byte initial value); all digests, payloads, "
         "iv bytes symbolic, leaf levels symbolic 0..249; reset after 1 leaf (thorough: after 2 leaves and closeAndSign) compared field by field and by behaviour with a new signer; "
         "KSI_Signature_signAggregated / KSI_Signature_free are recording stubs")
 plan = {
  "property": "C16",
  "outside": ("KSI_BlockSignerHandle_getSignature / KSI_BlockSigner_closeAndSign (need a server reply and the signature builder / parser); the block signer's leaf processors "
-             "(blocksigner.c) unless a h3_* harness is listed below; types.c's own KSI_MetaData serializer (metadata leaves are harness objects implementing the same two callbacks); "
+             "(blocksigner.c) beyond the h3_blocksigner bound (<= 3 leaves; 4 leaves with masks and metadata did not finish in 30 min); types.c's own KSI_MetaData serializer (metadata leaves are harness objects implementing the same two callbacks); "
              "trees of more than 8 leaves; KSI_TreeBuilder_free; allocation failure (C19)"),
  "assumptions": ["hash function = memoising model: equal (algorithm, message) -> equal digest, different message -> different digest by ASSUME (collision-freeness is an explicit assumption)",
                  "while the reference model says an operation must succeed, every error exit of tree_builder.c is reported as a failed check and the path is cut there "
